@@ -349,6 +349,27 @@ u_swap(uint64_t idx, void *arg)
         for (int i = 0; i < w; i++, n++)
             swap_one(w, 1ull << i);
     }
+    if (chunk == 0 && w == 16) {
+        /* the helpers called the way a table of constants calls them: with constant expressions whose top-level
+         * operator binds weaker than & (should a helper ever turn into a macro, its parameter needs parentheses) */
+        const struct { uint64_t got, want; const char *text; } ce[] = {
+            { bf_swap16(0x12u << 8 | 0x34u), 0x3412u, "bf_swap16(0x12u << 8 | 0x34u)" },
+            { bf_swap16(0x1200u ^ 0x0034u), 0x3412u, "bf_swap16(0x1200u ^ 0x0034u)" },
+            { bf_swap32(0x1122ul << 16 | 0x3344ul), 0x44332211ul, "bf_swap32(0x1122ul << 16 | 0x3344ul)" },
+            { bf_swap32(0x11000000ul ^ 0x00223344ul), 0x44332211ul, "bf_swap32(0x11000000ul ^ 0x00223344ul)" },
+            { bf_swap32(1 ? 0x11223344ul : 0ul), 0x44332211ul, "bf_swap32(1 ? 0x11223344ul : 0ul)" },
+            { bf_swap64(0x11223344ull << 32 | 0x55667788ull), 0x8877665544332211ull, "bf_swap64(0x11223344ull << 32 | 0x55667788ull)" },
+            { bf_swap64(0x1122334400000000ull ^ 0x55667788ull), 0x8877665544332211ull, "bf_swap64(0x1122334400000000ull ^ 0x55667788ull)" },
+            { bf_swap24(0x11ul << 16 | 0x2233ul), 0x332211ul, "bf_swap24(0x11ul << 16 | 0x2233ul)" },
+            { bf_swap40(0x11ull << 32 | 0x22334455ull), 0x5544332211ull, "bf_swap40(0x11ull << 32 | 0x22334455ull)" },
+            { bf_swap48(0x1122ull << 32 | 0x33445566ull), 0x665544332211ull, "bf_swap48(0x1122ull << 32 | 0x33445566ull)" },
+            { bf_swap56(0x112233ull << 32 | 0x44556677ull), 0x77665544332211ull, "bf_swap56(0x112233ull << 32 | 0x44556677ull)" },
+        };
+        for (size_t i = 0; i < sizeof ce / sizeof ce[0]; i++, n++)
+            if (ce[i].got != ce[i].want)
+                vh_fail("swap-constant-expression", "part=swap", "%s = %016" PRIx64 ", expected %016" PRIx64, ce[i].text, ce[i].got, ce[i].want);
+        VH_COUNT("swap helpers called with constant expressions");
+    }
     for (int k = 0; k < (vh_tier ? 500000 : 50000); k++, n++)
         swap_one(w, vh_rand(&r));
     VH_COUNTN("swap values compared", n);
